@@ -114,6 +114,86 @@ func deepRecursive(which string, d int) any {
 	}
 }
 
+// c14NamespaceCycles: reference cycles that exist only across namespaces (a scope linked to itself under a second
+// name; two sibling scopes that refer to each other; three in a ring). Once every namespace is applied, every
+// reference must be ready, ValidateReferences must say so (and return), and finite inputs must unserialize.
+func c14NamespaceCycles(c *wk.Ctx) {
+	prop := func(t schema.Type) *schema.PropertySchema {
+		return schema.NewPropertySchema(t, nil, false, nil, nil, nil, nil, nil)
+	}
+	intT := func() schema.Type { return schema.NewIntSchema(nil, nil, nil) }
+	type built struct {
+		scopes []*schema.ScopeSchema
+		inputs []any
+	}
+	cases := map[string]func() built{
+		"one scope under a second name": func() built {
+			s := schema.NewScopeSchema(schema.NewObjectSchema("Node", map[string]*schema.PropertySchema{"v": prop(intT()), "next": prop(schema.NewNamespacedRefSchema("Node", "nodes", nil))}))
+			s.ApplyNamespace(s.Objects(), "nodes")
+			return built{[]*schema.ScopeSchema{s}, []any{map[string]any{"v": int64(1)}, map[string]any{"v": int64(1), "next": map[string]any{"v": int64(2), "next": map[string]any{}}}}}
+		},
+		"two sibling scopes": func() built {
+			folder := schema.NewScopeSchema(schema.NewObjectSchema("Folder", map[string]*schema.PropertySchema{"n": prop(intT()),
+				"files": prop(schema.NewListSchema(schema.NewNamespacedRefSchema("File", "files", nil), nil, nil))}))
+			file := schema.NewScopeSchema(schema.NewObjectSchema("File", map[string]*schema.PropertySchema{"n": prop(intT()),
+				"parent": prop(schema.NewNamespacedRefSchema("Folder", "fs", nil))}))
+			folder.ApplyNamespace(file.Objects(), "files")
+			file.ApplyNamespace(folder.Objects(), "fs")
+			return built{[]*schema.ScopeSchema{folder, file}, []any{map[string]any{"n": int64(1)}, map[string]any{"n": int64(1), "files": []any{map[string]any{"n": int64(2), "parent": map[string]any{"n": int64(3)}}}}}}
+		},
+		"three scopes in a ring": func() built {
+			mk := func(id, next, ns string) *schema.ScopeSchema {
+				return schema.NewScopeSchema(schema.NewObjectSchema(id, map[string]*schema.PropertySchema{"n": prop(intT()), "to": prop(schema.NewNamespacedRefSchema(next, ns, nil))}))
+			}
+			a, b, cc := mk("A", "B", "nb"), mk("B", "C", "nc"), mk("C", "A", "na")
+			a.ApplyNamespace(b.Objects(), "nb")
+			b.ApplyNamespace(cc.Objects(), "nc")
+			cc.ApplyNamespace(a.Objects(), "na")
+			return built{[]*schema.ScopeSchema{a, b, cc}, []any{map[string]any{"n": int64(1), "to": map[string]any{"n": int64(2), "to": map[string]any{"n": int64(3), "to": map[string]any{"n": int64(4)}}}}}}
+		},
+	}
+	for _, name := range sortedKeys(cases) {
+		var b built
+		c.Note("namespace cycle: build " + name)
+		if p, site, msg, _ := wk.Guard(func() { b = cases[name]() }); p {
+			c.Violation("C14:panic:ApplyNamespace:"+site, "linking scopes that refer to each other across namespaces panicked ("+name+"): "+msg, map[string]any{"scopes": name})
+			continue
+		}
+		c.Count("namespace_cycles")
+		for si, s := range b.scopes {
+			wit := map[string]any{"scopes": name, "scope": si}
+			for _, rf := range refsOf(s) {
+				c.Count("reference_state_checks")
+				if !rf.ObjectReady() {
+					c.Violation("C14:link-state:namespace cycle", fmt.Sprintf("reference %s@%q is not linked although its namespace was applied", rf.ID(), rf.Namespace()), wit)
+				}
+			}
+			var verr error
+			c.Note("namespace cycle: ValidateReferences " + name)
+			if p, site, msg, _ := wk.Guard(func() { verr = s.ValidateReferences() }); p {
+				c.Violation("C14:panic:ValidateReferences:"+site, msg, wit)
+			} else if verr != nil {
+				c.Violation("C14:validate-references-disagrees:ready=true", fmt.Sprintf("every reference is linked but ValidateReferences()=%v", verr), wit)
+			}
+			if si > 0 {
+				continue
+			}
+			for _, in := range b.inputs {
+				c.Note("namespace cycle: Unserialize " + name)
+				c.Count("recursive_inputs")
+				c.Eval(wk.Hash64("namespace-cycle", name, cmpx.Canon(in)), true)
+				var err error
+				if p, site, msg, _ := wk.Guard(func() { _, err = s.Unserialize(cmpx.DeepCopy(in)) }); p {
+					c.Violation("C14:panic:Unserialize:"+site, "Unserialize panicked on a finite input of scopes linked in a cycle: "+msg, wit)
+				} else if err != nil {
+					wit["input"] = cmpx.Canon(in)
+					c.Violation("C14:rejected-must-accept:namespace cycle", fmt.Sprintf("a finite valid input of scopes that refer to each other across namespaces is rejected: %v", err), wit)
+				}
+			}
+		}
+	}
+}
+
 func runC14(c *wk.Ctx) {
 	c.Meta("rule", "(a) generated non-recursive scope trees (nested scopes whose object IDs collide with outer ones, references under properties / lists / maps / one-ofs, 0..2 external namespaces, also external objects with the same ID as a local one) built through the constructors; the external namespaces are applied in EVERY order (all permutations) on separate instances; the same tree with every reference replaced by the object the harness' own lexical resolution finds (no references, no namespaces needed) is built as the comparison schema. Inputs: valid by construction, perturbed, with a property dropped. Oracle: identical accept/reject verdicts and equal unserialized values (and the reference interpreter's verdict), for every application order; before, between and after the ApplyNamespace calls ValidateReferences()==nil exactly when every reference enumerated through the public accessors reports ObjectReady(), and applying one namespace leaves the link state and target of references to other namespaces untouched. (b) the same for scopes rebuilt from their own description (UnserializeScope + ApplySelf). (c) recursive and mutually recursive scopes (hand-written shapes) on finite inputs of nesting depth 1..500 and on non-map values. distinct = hash(scope, namespaces, input); non-trivial = the tree has a nested scope or an external namespace")
 	c.Meta("assumptions", []string{"references directly under a one-of are only generated for the self namespace (the SDK inspects member properties while linking)",
@@ -122,6 +202,10 @@ func runC14(c *wk.Ctx) {
 	c.Floor("inputs_compared", 3000)
 	c.Floor("reference_state_checks", 500)
 	c.Floor("recursive_inputs", 100)
+	if c.Mine(0) {
+		c.Begin(0, "namespace cycles")
+		c14NamespaceCycles(c)
+	}
 	tricky := gen.TrickyShapes()
 	n := c.N(2500, 800000)
 	c.Cases(n, func(idx int64, r *wk.Rand) {
@@ -267,11 +351,27 @@ func runC14(c *wk.Ctx) {
 						before[rf] = s
 					}
 				}
+				// first an application that must fail (an outdated table that lacks the objects), which the caller
+				// survives: it must leave every reference as it was
+				failedOnce, _, _, _ := wk.Guard(func() { t.ApplyNamespace(map[string]*schema.ObjectSchema{}, ns) })
+				if failedOnce {
+					c.Count("failed_namespace_applications")
+					if !checkState(t, applied, "after a failed application of "+ns) {
+						return
+					}
+				}
 				if p, site, msg, _ := wk.Guard(func() { t.ApplyNamespace(bt[ns], ns) }); p {
 					c.Violation("C14:panic:ApplyNamespace:"+site, fmt.Sprintf("ApplyNamespace(%q) panicked although every reference of that namespace has a target: %s", ns, msg), witBase)
 					return
 				}
 				applied[ns] = true
+				if failedOnce && pi%2 == 1 {
+					// and once more after the link exists: a failed re-application must not take it away
+					_, _, _, _ = wk.Guard(func() { t.ApplyNamespace(map[string]*schema.ObjectSchema{}, ns) })
+					if !checkState(t, applied, "after a failed re-application of "+ns) {
+						return
+					}
+				}
 				for rf, s := range before {
 					now := st{ready: rf.ObjectReady()}
 					if now.ready {
